@@ -11,7 +11,8 @@ RULE = ("find_vertices: user-defined filters written to the documented interface
         "string product. connect_valid_graph: all 65,536 order-2 masks enumerated (dtype alternating), masks of order "
         "1, 3, 4, 5 drawn, None and the empty mask; oracle = induced sub-graph by string successors. Non-trivial: the "
         "filter accepts a proper non-empty subset / some arc is dropped because its target is unmarked.")
-ASSUMPTIONS = ["user filters implement valid(self, dna_string) and return a bool; masks are bool or 0/1 int arrays"]
+ASSUMPTIONS = ["user filters implement valid(self, dna_string) and return a bool (or derive from LocalBioFilter and "
+               "keep its signature); masks are bool or integer arrays in which a marked vertex is any non-zero cell"]
 
 
 @st.composite
@@ -21,7 +22,17 @@ def filter_cases(draw, tier):
     if kind == "user":
         return {"k": k, "user": draw(gens.user_filter_cfgs(k))}
     if kind == "local":
-        return {"k": k, "local": draw(gens.local_filter_cfgs(k, decidable=False))}
+        cfg = draw(gens.local_filter_cfgs(k, decidable=False))
+        case = {"k": k, "local": cfg, "verbose": draw(st.booleans())}
+        variant = draw(st.sampled_from(["same_window", "same_window", "other_window", "subclass"]))
+        if variant == "other_window":
+            # the filter's own window need not equal the k-mer length handed to find_vertices
+            window = draw(st.sampled_from([max(1, k - 1), k + 1, k + 2, 2 * k]))
+            case["local"] = dict(cfg, k=window)
+            case["then_window"] = draw(st.sampled_from([k, window + 1, max(1, window - 1)]))
+        elif variant == "subclass":
+            case["subclass_forbids"] = draw(st.text(alphabet="ACGT", min_size=1, max_size=min(k, 3)))
+        return case
     if kind == "sparse":
         count = draw(st.integers(1, 3))
         members = sorted(set(draw(st.lists(st.integers(0, 4 ** k - 1), min_size=count, max_size=count))))
@@ -46,9 +57,42 @@ def evaluate_find(case):
                 return Outcome(True, False, labels + ["ctor_rejected"])
             return bad("LocalBioFilter constructor raised %r" % built, labels)
         flt = built
-        expected = [o.ref_local_filter(cfg, o.kmer(v, k)) for v in range(4 ** k)]
+        expected = [o.ref_local_filter(cfg, o.kmer(v, k), only_last=True) for v in range(4 ** k)]
         labels.append("local")
-    got = lib_call(dsw.find_vertices, observed_length=k, bio_filter=flt)
+        if cfg["k"] != k:
+            labels.append("window!=k")
+        if case.get("subclass_forbids"):
+            # a user filter derived from the built-in one: extra forward-only rule on top of the inherited verdict
+            forbidden = case["subclass_forbids"]
+
+            class Derived(type(built)):
+                def valid(self, dna_sequence, only_last=True):
+                    return super().valid(dna_sequence, only_last=only_last) and forbidden not in dna_sequence
+
+            flt = Derived(observed_length=built.observed_length, max_homopolymer_runs=built.max_homopolymer_runs,
+                          gc_range=built.gc_range, undesired_motifs=built.undesired_motifs)
+            expected = [None if e is None else (e and forbidden not in o.kmer(v, k)) for v, e in enumerate(expected)]
+            labels.append("local_subclass")
+    got = lib_call(dsw.find_vertices, observed_length=k, bio_filter=flt, verbose=bool(case.get("verbose")))
+    if case.get("then_window") and not isinstance(got, Raised):
+        # a second filter with the same rules but another window, same k, same process: its own verdicts count
+        other_cfg = dict(case["local"], k=case["then_window"])
+        other = lib_call(gens.build_local_filter, other_cfg)
+        if not isinstance(other, Raised):
+            second = lib_call(dsw.find_vertices, observed_length=k, bio_filter=other)
+            want = [o.ref_local_filter(other_cfg, o.kmer(v, k), only_last=True) for v in range(4 ** k)]
+            if isinstance(second, Raised):
+                if second.type is not ValueError or any(w is True for w in want):
+                    return bad("find_vertices raised %r for the second filter %r (k=%d)" % (second, other_cfg, k),
+                               labels)
+            else:
+                for v in range(4 ** k):
+                    if want[v] is not None and bool(second[v]) != want[v]:
+                        return bad("after a call with window %d, find_vertices(k=%d) with the same rules and window "
+                                   "%d marks %s as %s, the filter says %s (%r)"
+                                   % (case["local"]["k"], k, case["then_window"], o.kmer(v, k), bool(second[v]),
+                                      want[v], other_cfg), labels)
+            labels.append("two_windows_in_sequence")
     decided = [e for e in expected if e is not None]
     if any(e is None for e in expected):
         labels.append("float_boundary_kmers")
@@ -79,13 +123,13 @@ def evaluate_find(case):
 
 # ------------------------------------------------------------------------------------------- valid graph
 
-def check_valid_graph(k, bits, as_bool):
+def check_valid_graph(k, bits, as_bool, verbose=False):
     import numpy
     dsw = import_dsw()
     n = 4 ** k
     mask = gens.pooled(numpy.array(bits, dtype=bool if as_bool else int), "mask")
     before = mask.tobytes()
-    got = lib_call(dsw.connect_valid_graph, observed_length=k, vertices=mask)
+    got = lib_call(dsw.connect_valid_graph, observed_length=k, vertices=mask, verbose=verbose)
     if mask.tobytes() != before:
         return "connect_valid_graph modified the mask", False
     marked = {i for i, b in enumerate(bits) if b}
@@ -95,10 +139,21 @@ def check_valid_graph(k, bits, as_bool):
         return "empty mask: expected ValueError, got %r" % (got,), True
     if isinstance(got, Raised):
         return "connect_valid_graph raised %r on a non-empty mask (k=%d)" % (got, k), True
-    table = o.succ_table(k)
     dropped = False
     if tuple(got.shape) != (n, 4):
         return "valid graph has shape %r" % (tuple(got.shape),), True
+    if k >= 6:
+        try:
+            got_rows = gens.rows_of_accessor(got, k)
+        except ValueError as exc:
+            return "valid graph: %s (k=%d)" % (exc, k), True
+        want_rows = o.rows_from_mask(marked, k)
+        if got_rows != want_rows:
+            v = next(i for i in range(n) if got_rows[i] != want_rows[i])
+            return ("valid graph row %d (%s) has arcs %s, the induced sub-graph has %s (k=%d)"
+                    % (v, o.kmer(v, k), o.live(got_rows, v), o.live(want_rows, v), k)), True
+        return None, True
+    table = o.succ_table(k)
     for u in range(n):
         for j in range(4):
             w = table[u][j]
@@ -121,16 +176,23 @@ def evaluate_valid_order2(case):
 
 @st.composite
 def valid_cases(draw, tier):
-    k = draw(st.sampled_from([1, 3, 3, 4, 4] if tier == "quick" else [1, 3, 4, 4, 5, 5]))
-    kind = draw(st.sampled_from(["mask", "mask", "mask", "mask", "empty", "none", "single"]))
+    k = draw(st.sampled_from([1, 3, 3, 4, 4, 5, 6, 7, 8] if tier == "quick" else [1, 3, 4, 5, 5, 6, 7, 8, 8, 9]))
+    kind = draw(st.sampled_from(["mask", "mask", "mask", "mask", "empty", "none", "single", "values>1"]))
+    if k >= 6 and kind in ("empty", "none", "single"):
+        kind = "mask"
     if kind == "mask":
         bits = draw(gens.masks(k))
+    elif kind == "values>1":
+        # integer masks whose marked cells hold other non-zero values (e.g. the sum of two masks): marked = non-zero
+        rng = __import__("random").Random(draw(st.integers(0, 2 ** 32 - 1)))
+        bits = [b * rng.choice([1, 2, 3]) for b in draw(gens.masks(k))]
     elif kind == "single":
         v = draw(st.integers(0, 4 ** k - 1))
         bits = [1 if i == v else 0 for i in range(4 ** k)]
     else:
         bits = [0] * (4 ** k)
-    return {"k": k, "bits": "".join(map(str, bits)), "bool": draw(st.booleans()), "none": kind == "none"}
+    return {"k": k, "bits": "".join(map(str, bits)), "bool": draw(st.booleans()) and kind != "values>1",
+            "none": kind == "none", "verbose": k <= 5 and draw(st.integers(0, 3)) == 0}
 
 
 def evaluate_valid_drawn(case):
@@ -142,8 +204,12 @@ def evaluate_valid_drawn(case):
             return Outcome(True, True, ["none_mask"])
         return bad("connect_valid_graph(vertices=None) gave %r instead of ValueError" % (got,))
     bits = [int(c) for c in case["bits"]]
-    detail, nontrivial = check_valid_graph(k, bits, case["bool"])
+    detail, nontrivial = check_valid_graph(k, bits, case["bool"], verbose=bool(case.get("verbose")))
     labels = ["k=%d" % k, "empty_mask" if not any(bits) else "mask"]
+    if any(b > 1 for b in bits):
+        labels.append("mask_values>1")
+    if case.get("verbose"):
+        labels.append("verbose")
     if detail:
         return bad(detail, labels)
     return Outcome(True, nontrivial, labels)
@@ -152,14 +218,15 @@ def evaluate_valid_drawn(case):
 SUBCHECKS = [
     SubCheck("find_vertices", evaluate_find, strategy=filter_cases, examples=(2500, 25000), shards=(16, 16),
              floors={"user:set": 200, "user:regional_gc": 100, "user:forbidden": 100, "local": 200,
-                     "none_accepted": 50, "very_sparse": 80, "k=6": 100, "very_sparse_k6": 15},
+                     "none_accepted": 50, "very_sparse": 80, "k=6": 100, "very_sparse_k6": 15, "window!=k": 40,
+                     "two_windows_in_sequence": 30, "local_subclass": 40},
              rule=RULE),
     SubCheck("valid_graph_order2", evaluate_valid_order2, enum=(lambda tier: 65536,
                                                                lambda i, tier: {"k": 2, "mask": i}),
              shards=(16, 16), exhaustive_space="connect_valid_graph on all 65,536 order-2 masks, dtype alternating",
              rule=RULE),
     SubCheck("valid_graph_drawn", evaluate_valid_drawn, strategy=valid_cases, examples=(1200, 12000),
-             shards=(8, 16), floors={"none_mask": 40, "empty_mask": 40, "k=4": 100}, rule=RULE),
+             shards=(8, 16), floors={"none_mask": 30, "empty_mask": 30, "k=4": 60, "k=8": 20, "mask_values>1": 40}, rule=RULE),
 ]
 
 TECHNIQUE = ("property-based testing (Hypothesis) with user-defined filter classes as generated inputs, plus complete "
